@@ -1,5 +1,5 @@
 //! C10 — static well-formedness rules are enforced and reported truthfully.
-//! Explores all syntactically valid files of at most m items over a 104-item alphabet built from small
+//! Explores all syntactically valid files of at most m items over a 155-item alphabet built from small
 //! name pools (every combination of simultaneous violations occurs); oracle: R-validate's violation *set*.
 
 use crate::common::*;
@@ -14,12 +14,12 @@ pub fn item_alphabet() -> Vec<String> {
         items.push(format!("start {x}"));
     }
     for k in ["Tok", "A", "tok"] {
-        for vs in ["", "$T: ()", "$T: () $U: ()", "$T: () $T: ()", "$A: ()", "$t: ()"] {
+        for vs in ["", "$T: ()", "$T: () $U: ()", "$T: () $T: ()", "$A: ()", "$t: ()", "$Tok: ()"] {
             items.push(format!("terminal {k} {{ {vs} }}"));
         }
     }
-    for x in ["A", "B", "T", "a", "Tok"] {
-        for fs in ["", "($T)", "(A)", "(B)", "(T)", "($A)", "($Z)", "(Z)", "{x: $T}", "{X: $T}", "{_: $T}", "(_: $A)"] {
+    for x in ["A", "B", "T", "a", "Tok", "_a", "_9"] {
+        for fs in ["", "($T)", "(A)", "(B)", "(T)", "($A)", "($Z)", "(Z)", "{x: $T}", "{X: $T}", "{_: $T}", "(_: $A)", "{_x: $T}", "{_X: $T}"] {
             items.push(format!("struct {x}{fs}"));
         }
     }
@@ -37,6 +37,13 @@ pub fn item_alphabet() -> Vec<String> {
             "V{x: $T _: $U} W{y: $T}",
             "V{_: $T} W{_: $U}",
             "V{x: $T _: $U} W{_: $T y: $U}",
+            // cross-namespace near misses: the same name once as a nonterminal and once as a terminal
+            "V(T) W($T)",
+            "V(A) W($A)",
+            "V{x: $T} W{x: T}",
+            // a variant named like a nonterminal / a terminal is no clash
+            "A",
+            "T($T)",
         ] {
             items.push(format!("enum {x} {{ {vs} }}"));
         }
